@@ -74,6 +74,15 @@ void SoPlexBase<R>::_optimizeRational(volatile bool* interrupt)
                        _basisStatusCols.size());
    }
 
+   // the iterative refinement reads and modifies the floating-point LP directly and restores it from an unscaled copy;
+   // remove a persistent scaling left behind by an earlier floating-point solve
+   if(_isRealLPScaled)
+   {
+      _solver.unscaleLPandReloadBasis();
+      _isRealLPScaled = false;
+      ++_unscaleCalls;
+   }
+
    // store objective, bounds, and sides of Real LP in case they will be modified during iterative refinement
    _storeLPReal();
 
